@@ -26,7 +26,7 @@ LEVEL_NOTE = ('Finite value alphabets; sums reorder under permutation, so permut
 RULE = ("cases: (kind, configuration, chunk); executions: Fitter.fit calls compared pairwise; for histories a state is (fitter canonical hash, history) and a transition one fit; "
         "non-trivial = distinct non-identity permutations / constants != 1 / histories of length >= 2")
 ASSUMPTIONS = ["finite value alphabets", "canonical encoding of Fitter covers all state that can influence a fit (models.fluxes, names, wavelengths, distances, logd, extended, av_law, sc_law, av_range, filters)"]
-REQUIRED_CLASSES = ['filter-perm', 'model-perm-files', 'brightness-constant', 'history-len3', 'history-repeat-same-source', 'mode-2d', 'mode-3d', 'float32-path',
+REQUIRED_CLASSES = ['both-limit-kinds-different-confidence', 'filter-perm', 'model-perm-files', 'brightness-constant', 'history-len3', 'history-repeat-same-source', 'mode-2d', 'mode-3d', 'float32-path',
                     'source-with-limits', 'source-all-flag4']
 TIMEOUT = {'quick': 600, 'thorough': 3000}
 
@@ -165,11 +165,18 @@ def run_case(ctx, case, rec, d):
         kk = fc.law_k('power', [fc.BAND_WAV[b] for b in bands_all])
         theta = np.array([1.0, 3.0, 1.0, 2.0, 1.0, 3.0][:kf])
         base = (f[1] if mode == '2d' else f[1][:, 1]) * 10 ** (1.5 * kk) * (2.0 if mode == '2d' else 0.5)
-        flags = tuple([1, 4, 3, 1, 2, 1][:kf])
+        # from 4 filters on: a lower AND an upper limit with different confidences next to the fitted points
+        flags = tuple({2: [1, 1], 3: [1, 4, 3]}.get(kf, [1, 2, 3, 1, 4, 1][:kf]))
         fl, er = fc.photometry(flags, base, 1 + 4 * seed, conf_rot=1)
         for j, v in enumerate(flags):
-            if v in (2, 3):
+            if v == 3:
                 er[j] = 0.7
+                fl[j] = base[j] * 0.3          # most models violate it
+            if v == 2:
+                er[j] = 0.35
+                fl[j] = base[j] * 3.0
+        if kf >= 4:
+            rec.cls('both-limit-kinds-different-confidence')
         ident = fc.make_fitter(md, bands_all, 'power', avr, theta=theta, **kw)
         b0 = _res(ident.fit(fc.make_source(flags, fl, er)), names)
         f32 = fc.observed_f32(ident)
